@@ -23,9 +23,280 @@ def iter : Nat → M → Option M
 
 def M.eraseFault (m : M) : M := { m with faultAt := none }
 
+/-! ### invariant of one `stepCore` transition: `steps` untouched, `trace` only extended -/
+
+/-- what one transition may do to the observable bookkeeping: keep `steps`, extend `trace` -/
+def R (m m0 : M) : Prop := m0.steps = m.steps ∧ m.trace.toList <+: m0.trace.toList
+
+def Ext (m : M) (s : Step) : Prop := ∀ m', s = .inl m' → R m m'
+
+theorem R.refl (m : M) : R m m := ⟨rfl, List.prefix_refl _⟩
+theorem R.trans {a b c : M} (h1 : R a b) (h2 : R b c) : R a c :=
+  ⟨h2.1.trans h1.1, h1.2.trans h2.2⟩
+
+theorem Ext.trans {m m0 : M} {s : Step} (h : R m m0) (e : Ext m0 s) : Ext m s :=
+  fun m' hs => h.trans (e m' hs)
+
+@[simp] theorem Ext_inr (m : M) (o : Outcome) : Ext m (.inr o) := by intro m' h; cases h
+@[simp] theorem Ext_inl (m m0 : M) : Ext m (.inl m0) ↔ R m m0 :=
+  ⟨fun h => h _ rfl, fun h m' e => by cases e; exact h⟩
+
+@[simp] theorem R_def (m m0 : M) : R m m0 ↔ (m0.steps = m.steps ∧ m.trace.toList <+: m0.trace.toList) := Iff.rfl
+
+@[simp] theorem Ext_unspec (m : M) (w : String) : Ext m (unspec w) := by simp [unspec]
+@[simp] theorem Ext_vals (m m0 : M) (vs) : Ext m (vals m0 vs) ↔ R m m0 := by simp [vals]
+@[simp] theorem Ext_val1 (m m0 : M) (v) : Ext m (val1 m0 v) ↔ R m m0 := by simp [val1]
+@[simp] theorem Ext_push (m m0 : M) (f c) : Ext m (push m0 f c) ↔ R m m0 := by simp [push]
+@[simp] theorem Ext_goto (m m0 : M) (c) : Ext m (goto_ m0 c) ↔ R m m0 := by simp [goto_]
+@[simp] theorem Ext_fault (m m0 : M) (w) : Ext m (fault m0 w) ↔ R m m0 := by simp [fault]
+
+@[simp] theorem tset_trace (m : M) (i t) : (m.tset i t).trace = m.trace := rfl
+@[simp] theorem tset_steps (m : M) (i t) : (m.tset i t).steps = m.steps := rfl
+@[simp] theorem rawsetK_trace (m : M) (i k v) : (m.rawsetK i k v).trace = m.trace := rfl
+@[simp] theorem rawsetK_steps (m : M) (i k v) : (m.rawsetK i k v).steps = m.steps := rfl
+@[simp] theorem setCell_trace (m : M) (c v) : (m.setCell c v).trace = m.trace := rfl
+@[simp] theorem setCell_steps (m : M) (c v) : (m.setCell c v).steps = m.steps := rfl
+@[simp] theorem setThread_trace (m : M) (c v) : (m.setThread c v).trace = m.trace := rfl
+@[simp] theorem setThread_steps (m : M) (c v) : (m.setThread c v).steps = m.steps := rfl
+@[simp] theorem newTable_trace (m : M) : (m.newTable).1.trace = m.trace := rfl
+@[simp] theorem newTable_steps (m : M) : (m.newTable).1.steps = m.steps := rfl
+@[simp] theorem newCell_trace (m : M) (v) : (m.newCell v).1.trace = m.trace := rfl
+@[simp] theorem newCell_steps (m : M) (v) : (m.newCell v).1.steps = m.steps := rfl
+
+theorem foldl_trace {α} (f : M → α → M) (hf : ∀ m a, (f m a).trace = m.trace) (l : List α) (m : M) :
+    (l.foldl f m).trace = m.trace := by
+  induction l generalizing m with
+  | nil => rfl
+  | cons a l ih => simp [List.foldl, ih, hf]
+theorem foldl_steps {α} (f : M → α → M) (hf : ∀ m a, (f m a).steps = m.steps) (l : List α) (m : M) :
+    (l.foldl f m).steps = m.steps := by
+  induction l generalizing m with
+  | nil => rfl
+  | cons a l ih => simp [List.foldl, ih, hf]
+
+@[simp] theorem foldl_rawsetK_trace {α} (tid : Nat) (k : M → α → Key) (v : M → α → SVal) (l : List α) (m : M) :
+    (l.foldl (fun m d => m.rawsetK tid (k m d) (v m d)) m).trace = m.trace :=
+  foldl_trace (fun m d => m.rawsetK tid (k m d) (v m d)) (fun _ _ => rfl) l m
+@[simp] theorem foldl_rawsetK_steps {α} (tid : Nat) (k : M → α → Key) (v : M → α → SVal) (l : List α) (m : M) :
+    (l.foldl (fun m d => m.rawsetK tid (k m d) (v m d)) m).steps = m.steps :=
+  foldl_steps (fun m d => m.rawsetK tid (k m d) (v m d)) (fun _ _ => rfl) l m
+
+macro "ext_auto" : tactic => `(tactic| repeat' (first | split | (simp; done)))
+
+theorem binop_ext (m : M) (op a b) : Ext m (binop m op a b) := by
+  simp only [binop]
+  ext_auto
+
+@[simp] theorem Ext_binop {m m0 : M} (h : R m m0) (op a b) : Ext m (binop m0 op a b) :=
+  Ext.trans h (binop_ext m0 op a b)
+
+theorem tblNext_ext (m : M) (tid idx fs env) : Ext m (tblNext m tid idx fs env) := by
+  simp only [tblNext]
+  ext_auto
+@[simp] theorem Ext_tblNext {m m0 : M} (h : R m m0) (tid idx fs env) : Ext m (tblNext m0 tid idx fs env) :=
+  Ext.trans h (tblNext_ext m0 tid idx fs env)
+
+theorem resume_ext (m : M) (co args wrap) : Ext m (resume m co args wrap) := by
+  simp only [resume]
+  ext_auto
+@[simp] theorem Ext_resume {m m0 : M} (h : R m m0) (co args wrap) : Ext m (resume m0 co args wrap) :=
+  Ext.trans h (resume_ext m0 co args wrap)
+
+theorem switchToParent_ext (m : M) (st sk d) : Ext m (switchToParent m st sk d) := by
+  simp only [switchToParent]
+  ext_auto
+@[simp] theorem Ext_switchToParent {m m0 : M} (h : R m m0) (st sk d) : Ext m (switchToParent m0 st sk d) :=
+  Ext.trans h (switchToParent_ext m0 st sk d)
+
+set_option maxRecDepth 4000 in
+theorem hostCall_ext (m : M) (name args) : Ext m (hostCall m name args) := by
+  simp only [hostCall]
+  split
+  all_goals ext_auto
+@[simp] theorem Ext_hostCall {m m0 : M} (h : R m m0) (name args) : Ext m (hostCall m0 name args) :=
+  Ext.trans h (hostCall_ext m0 name args)
+
+
+/-! heap helpers returning pairs / recursive ones -/
+
+@[simp] theorem bindNames_trace (m : M) (env ns vs) : (bindNames m env ns vs).1.trace = m.trace := by
+  induction ns generalizing m env vs with
+  | nil => rfl
+  | cons n ns ih => simp [bindNames, M.newCell, ih]
+@[simp] theorem bindNames_steps (m : M) (env ns vs) : (bindNames m env ns vs).1.steps = m.steps := by
+  induction ns generalizing m env vs with
+  | nil => rfl
+  | cons n ns ih => simp [bindNames, M.newCell, ih]
+
+theorem bindNames_R {m : M} {env ns vs m1 e} (h : bindNames m env ns vs = (m1, e)) :
+    m1.steps = m.steps ∧ m1.trace = m.trace := by
+  have h1 := bindNames_steps m env ns vs
+  have h2 := bindNames_trace m env ns vs
+  rw [h] at h1 h2
+  exact ⟨h1, h2⟩
+
+@[simp] theorem pack_go_trace (tid : Nat) (m : M) (i vs) : (M.pack.go tid m i vs).trace = m.trace := by
+  induction vs generalizing m i with
+  | nil => rfl
+  | cons v vs ih => simp [M.pack.go, ih]
+@[simp] theorem pack_go_steps (tid : Nat) (m : M) (i vs) : (M.pack.go tid m i vs).steps = m.steps := by
+  induction vs generalizing m i with
+  | nil => rfl
+  | cons v vs ih => simp [M.pack.go, ih]
+@[simp] theorem pack_trace (m : M) (vs) : (m.pack vs).1.trace = m.trace := by
+  simp [M.pack, M.newTable]
+@[simp] theorem pack_steps (m : M) (vs) : (m.pack vs).1.steps = m.steps := by
+  simp [M.pack, M.newTable]
+
+theorem pack_R {m : M} {vs m1 t} (h : m.pack vs = (m1, t)) : m1.steps = m.steps ∧ m1.trace = m.trace := by
+  have h1 := pack_steps m vs
+  have h2 := pack_trace m vs
+  rw [h] at h1 h2
+  exact ⟨h1, h2⟩
+
+@[simp] theorem put_trace (tid : Nat) (m : M) (i vs) : (stepVals.put tid m i vs).trace = m.trace := by
+  induction vs generalizing m i with
+  | nil => rfl
+  | cons v vs ih => simp [stepVals.put, ih]
+@[simp] theorem put_steps (tid : Nat) (m : M) (i vs) : (stepVals.put tid m i vs).steps = m.steps := by
+  induction vs generalizing m i with
+  | nil => rfl
+  | cons v vs ih => simp [stepVals.put, ih]
+
+/-- like `ext_auto`, also using the facts about `bindNames` / `pack` results named by a `split` -/
+macro "ext_auto'" : tactic => `(tactic| repeat' (first
+  | split
+  | (simp; done)
+  | (have := bindNames_R ‹bindNames _ _ _ _ = _›; simp [this]; done)))
+
+theorem callClosure_ext (m : M) (id args fh) : Ext m (callClosure m id args fh) := by
+  simp only [callClosure]
+  rcases hb : bindNames m (m.clo id).env (m.clo id).params args with ⟨m1, env1⟩
+  have hb' := bindNames_R hb
+  simp only []
+  split
+  · rcases hp : m1.pack (List.drop (m.clo id).params.length args) with ⟨m2, tid⟩
+    have hp' := pack_R hp
+    simp [M.newCell, hb', hp']
+  · simp [hb']
+@[simp] theorem Ext_callClosure {m m0 : M} (h : R m m0) (id args fh) : Ext m (callClosure m0 id args fh) :=
+  Ext.trans h (callClosure_ext m0 id args fh)
+
+theorem stepExpr_ext (m : M) (e env) : Ext m (stepExpr m e env) := by
+  simp only [stepExpr, M.newTable]
+  ext_auto
+@[simp] theorem Ext_stepExpr {m m0 : M} (h : R m m0) (e env) : Ext m (stepExpr m0 e env) :=
+  Ext.trans h (stepExpr_ext m0 e env)
+
+theorem stepStmt_ext (m : M) (s env) : Ext m (stepStmt m s env) := by
+  simp only [stepStmt]
+  ext_auto
+@[simp] theorem Ext_stepStmt {m m0 : M} (h : R m m0) (s env) : Ext m (stepStmt m0 s env) :=
+  Ext.trans h (stepStmt_ext m0 s env)
+
+theorem stepBlock_ext (m : M) (ss env) : Ext m (stepBlock m ss env) := by
+  simp only [stepBlock, M.newCell]
+  ext_auto
+@[simp] theorem Ext_stepBlock {m m0 : M} (h : R m m0) (ss env) : Ext m (stepBlock m0 ss env) :=
+  Ext.trans h (stepBlock_ext m0 ss env)
+
+theorem stepIndex_ext (m : M) (o k d) : Ext m (stepIndex m o k d) := by
+  simp only [stepIndex]
+  ext_auto
+@[simp] theorem Ext_stepIndex {m m0 : M} (h : R m m0) (o k d) : Ext m (stepIndex m0 o k d) :=
+  Ext.trans h (stepIndex_ext m0 o k d)
+
+theorem stepSetIndex_ext (m : M) (o k v d) : Ext m (stepSetIndex m o k v d) := by
+  simp only [stepSetIndex]
+  ext_auto
+@[simp] theorem Ext_stepSetIndex {m m0 : M} (h : R m m0) (o k v d) : Ext m (stepSetIndex m0 o k v d) :=
+  Ext.trans h (stepSetIndex_ext m0 o k v d)
+
+theorem stepCall_ext (m : M) (f args) : Ext m (stepCall m f args) := by
+  simp only [stepCall]
+  ext_auto
+@[simp] theorem Ext_stepCall {m m0 : M} (h : R m m0) (f args) : Ext m (stepCall m0 f args) :=
+  Ext.trans h (stepCall_ext m0 f args)
+
+theorem stepAssignTargets_ext (m : M) (d r es env) : Ext m (stepAssignTargets m d r es env) := by
+  simp only [stepAssignTargets]
+  ext_auto
+@[simp] theorem Ext_stepAssignTargets {m m0 : M} (h : R m m0) (d r es env) :
+    Ext m (stepAssignTargets m0 d r es env) :=
+  Ext.trans h (stepAssignTargets_ext m0 d r es env)
+
+theorem stepStores_ext (m : M) (p env) : Ext m (stepStores m p env) := by
+  simp only [stepStores]
+  ext_auto
+@[simp] theorem Ext_stepStores {m m0 : M} (h : R m m0) (p env) : Ext m (stepStores m0 p env) :=
+  Ext.trans h (stepStores_ext m0 p env)
+
+theorem startForNum_ext (m : M) (v c l s b env) : Ext m (startForNum m v c l s b env) := by
+  simp only [startForNum, M.newCell]
+  ext_auto
+@[simp] theorem Ext_startForNum {m m0 : M} (h : R m m0) (v c l s b env) :
+    Ext m (startForNum m0 v c l s b env) :=
+  Ext.trans h (startForNum_ext m0 v c l s b env)
+
+theorem stepVals_ext (m : M) (fr vs) : Ext m (stepVals m fr vs) := by
+  simp only [stepVals]
+  split
+  all_goals ext_auto'
+@[simp] theorem Ext_stepVals {m m0 : M} (h : R m m0) (fr vs) : Ext m (stepVals m0 fr vs) :=
+  Ext.trans h (stepVals_ext m0 fr vs)
+
+theorem stepDone_ext (m : M) (fr) : Ext m (stepDone m fr) := by
+  simp only [stepDone]
+  ext_auto
+@[simp] theorem Ext_stepDone {m m0 : M} (h : R m m0) (fr) : Ext m (stepDone m0 fr) :=
+  Ext.trans h (stepDone_ext m0 fr)
+
+theorem stepBrk_ext (m : M) : Ext m (stepBrk m) := by
+  simp only [stepBrk]
+  ext_auto
+theorem stepRetn_ext (m : M) (vs) : Ext m (stepRetn m vs) := by
+  simp only [stepRetn]
+  ext_auto
+theorem stepGoto_ext (m : M) (l) : Ext m (stepGoto m l) := by
+  simp only [stepGoto]
+  ext_auto
+theorem stepErr_ext (m : M) (v fl) : Ext m (stepErr m v fl) := by
+  simp only [stepErr]
+  ext_auto
+
+/-- one fault-free transition keeps `steps` and only extends `trace` -/
+theorem stepCore_ext (m : M) : Ext m (stepCore m) := by
+  simp only [stepCore]
+  split
+  all_goals first
+    | exact stepBrk_ext m
+    | exact stepRetn_ext m _
+    | exact stepGoto_ext m _
+    | exact stepErr_ext m _ _
+    | ext_auto
+
+/-! ### `step` -/
+
+theorem step_of_ne (m : M) (h : m.faultAt ≠ some (m.steps + 1)) :
+    step m = reattachFault m.faultAt (stepCore { m with steps := m.steps + 1, faultAt := none }) := by
+  simp [step, h]
+
+theorem step_R (m m' : M) (h : step m = .inl m') : m'.steps = m.steps + 1 ∧ m.traceL <+: m'.traceL := by
+  simp only [step] at h
+  split at h
+  · split at h <;> (cases h; simp [M.traceL])
+  · generalize hs : stepCore _ = s at h
+    cases s with
+    | inl m2 =>
+      have := stepCore_ext _ _ hs
+      simp only [reattachFault, Sum.inl.injEq] at h
+      subst h
+      simpa [M.traceL] using this
+    | inr o => simp [reattachFault] at h
+
 /-- one transition never removes or reorders earlier `emit`s -/
-theorem step_trace_mono (m m' : M) (h : step m = .inl m') : m.traceL <+: m'.traceL := by
-  sorry
+theorem step_trace_mono (m m' : M) (h : step m = .inl m') : m.traceL <+: m'.traceL :=
+  (step_R m m' h).2
 
 /-- … hence neither does a whole run -/
 theorem run_trace_mono (fuel : Nat) (m : M) : m.traceL <+: (run fuel m).1.traceL := by
@@ -56,13 +327,32 @@ theorem run_mono (fuel k : Nat) (m : M) (h : (run fuel m).2.isOutOfFuel = false)
     fault-free machine are in the same state (up to the `faultAt` field). -/
 theorem fault_agrees_before (m : M) (k n : Nat) (hk : m.steps + n < k) :
     (iter n { m with faultAt := some k }).map M.eraseFault = (iter n { m with faultAt := none }).map M.eraseFault := by
-  sorry
+  induction n generalizing m with
+  | zero => rfl
+  | succ n ih =>
+    have h1 : ({ m with faultAt := some k } : M).faultAt ≠ some (({ m with faultAt := some k } : M).steps + 1) := by
+      simp only [ne_eq, Option.some.injEq]; omega
+    have h2 : ({ m with faultAt := none } : M).faultAt ≠ some (({ m with faultAt := none } : M).steps + 1) := by
+      simp
+    simp only [iter, step_of_ne _ h1, step_of_ne _ h2]
+    cases hs : stepCore { m with steps := m.steps + 1, faultAt := none } with
+    | inr o => rfl
+    | inl m2 =>
+      have hR := stepCore_ext _ _ hs
+      simp only [reattachFault]
+      apply ih m2
+      have : m2.steps = m.steps + 1 := hR.1
+      omega
 
 /-- the emits of a faulted run up to the fault are a prefix of the emits of the fault-free run
     (at the same step, hence — by `run_trace_mono` — of the whole fault-free run). -/
 theorem fault_trace_prefix (m : M) (k n : Nat) (hk : m.steps + n < k) (mf mc : M)
     (hf : iter n { m with faultAt := some k } = some mf) (hc : iter n { m with faultAt := none } = some mc) :
     mf.traceL = mc.traceL := by
-  sorry
+  have h := fault_agrees_before m k n hk
+  rw [hf, hc] at h
+  simp only [Option.map_some, Option.some.injEq] at h
+  have := congrArg M.trace h
+  simpa [M.eraseFault, M.traceL] using congrArg Array.toList this
 
 end GLua.Sem
